@@ -22,11 +22,11 @@ from hypothesis import strategies as st
 from .. import simenv
 from ..core import Lab, Violation, HarnessError
 from . import robot_reg
-from .robot_reg import CTX, Injected, InjectedBase
+from .robot_reg import CTX, Injected, InjectedBase, InjectedAttr
 
 MODES = ("disabled", "auto", "teleop", "test")
 HOOKS = ("autonomousInit", "teleopInit", "disabledInit", "testInit", "teleopPeriodic", "disabledPeriodic", "testPeriodic", "robotPeriodic")
-PERIODS = (20_000, 20_000, 5_000, 10_000, 50_000)
+PERIODS = (20_000, 20_000, 5_000, 10_000, 50_000, 12_500)  # 12.5 ms has a sub-millisecond part
 LIFECYCLE_SUFFIX = (".setup", ".on_enable", ".on_disable", "Init", "createObjects")
 
 HINTS = ["u_int", "u_float", "u_str", "u_bool", "int", "float", "bool", "str", "seq_int", "list_float", "tuple_str", "tuple_bool2", "rot", "seq_rot"]
@@ -228,6 +228,16 @@ def build_program(rs):
             else:
                 ns[fb["m"]] = _make_feedback(n, fb)
         bases = (object,)
+        if c.get("fb_overridden") and c.get("fbs") and not inherited_fb:
+            # the base class has a @feedback getter of the same name that the component class overrides (and decorates again)
+            fb0 = c["fbs"][0]
+
+            def base_getter(self):
+                CTX.hit(f"fb-base-version:{n}.{fb0['m']}")
+                return None
+
+            base_getter.__name__ = fb0["m"]
+            inherited_fb[fb0["m"]] = magicbot.feedback(base_getter)
         if inherited_fb:
             bases = (type(f"FbBase_{n}", (object,), inherited_fb),)
         if c.get("sm") and not inherited_fb:
@@ -471,6 +481,8 @@ def run_program(case, with_faults=True, with_writes=True):
                 CTX.faults[f["site"]] = "all" if f["occ"] == "all" else set(f["occ"])
                 if f.get("base"):
                     CTX.base_faults.add(f["site"])
+                if f.get("attr"):
+                    CTX.attr_faults.add(f["site"])
         if with_writes:
             for w in case.get("writes", []):
                 CTX.writes.setdefault((w["by"], w["n"]), []).append((w["comp"], w["attr"], w["value"]))
@@ -627,7 +639,7 @@ _I = st.integers
 _FB_CODE = st.tuples(_I(0, 6), _I(0, 2), _I(0, 13), st.lists(_I(0, 19), min_size=1, max_size=3))
 _COMP_CODE = st.tuples(_I(0, 7), _I(0, 2), _I(0, 1), _I(0, 1), st.lists(_FB_CODE, max_size=2), _I(0, 4))
 _ROBOT_CODE = st.tuples(
-    st.lists(_COMP_CODE, max_size=4), _I(0, 4), _I(0, 255), st.booleans(), _I(0, 4),
+    st.lists(_COMP_CODE, max_size=4), _I(0, 4), _I(0, 255), st.booleans(), _I(0, 5),
     st.lists(st.booleans(), max_size=2), _I(0, 6), st.lists(_FB_CODE, max_size=2),
 )
 _HIST_CODE = st.lists(st.tuples(_I(0, 6), _I(1, 6)), min_size=1, max_size=8)
@@ -679,6 +691,8 @@ def decode_robot(code):
             c["sm"] = True  # this component is a magicbot StateMachine
         elif rv == 1 and fbs_c:
             c["fb_on_base"] = True
+        elif rv == 4 and fbs_c:
+            c["fb_overridden"] = True
         if rv == 0 and c["setup"] and not c.get("sm"):
             c["late_hooks"] = True
         c["resets"] = {(f"_r{j}" if (rv + j) % 3 == 0 else f"r{j}"): RESET_VALUES[(rv + j) % 5] for j in range(nres)}  # markers may be private names too
@@ -754,6 +768,8 @@ def decode_faults(code, rs):
         f = {"site": site, "occ": [[1], [2], [3], [1, 2], "all", [2, 5]][occ]}
         if s % 5 == 0:
             f["base"] = True  # raise a BaseException subclass instead of an Exception subclass
+        elif s % 5 == 1:
+            f["attr"] = True  # raise an AttributeError subclass (the kind of error a missing hook lookup would raise)
         out.append(f)
     return out
 
@@ -808,7 +824,7 @@ def robot_cases(pid, deep=False):
     rc, hc = _ROBOT_CODE, _HIST_CODE
     if deep:
         # thorough tier: up to 6 components and 14 mode segments
-        rc = st.tuples(st.lists(_COMP_CODE, max_size=6), _I(0, 6), _I(0, 255), st.booleans(), _I(0, 4),
+        rc = st.tuples(st.lists(_COMP_CODE, max_size=6), _I(0, 6), _I(0, 255), st.booleans(), _I(0, 5),
                        st.lists(st.booleans(), max_size=2), _I(0, 6), st.lists(_FB_CODE, max_size=3))
         hc = st.lists(st.tuples(_I(0, 6), _I(1, 8)), min_size=1, max_size=14)
     return st.tuples(rc, hc, st.booleans(), _FAULT_CODE, _WRITE_CODE, _CHUNK_CODE).map(build)
@@ -933,7 +949,7 @@ class C06(RobotLab):
 
     def run_case(self, case):
         run = run_program(case, with_faults=bool(case.get("fms")))
-        if run.exc is not None and isinstance(run.exc, (Injected, InjectedBase)):
+        if run.exc is not None and isinstance(run.exc, (Injected, InjectedBase, InjectedAttr)):
             return {"nontrivial": False, "classes": ["aborted-by-C07-root-cause"]}
         self.check_alive_and_exc(case, run)
         rs = case["robot"]
@@ -1094,7 +1110,7 @@ class C10(RobotLab):
         run = run_program(case, with_faults=True, with_writes=True)
         rs = case["robot"]
         if run.exc is not None:
-            if isinstance(run.exc, (Injected, InjectedBase)):
+            if isinstance(run.exc, (Injected, InjectedBase, InjectedAttr)):
                 # root cause belongs to C07 (unguarded callback); not double-counted here
                 return {"nontrivial": False, "classes": ["aborted-by-C07-root-cause"]}
             raise Violation(f"C10/robot-died/{type(run.exc).__name__}", f"startCompetition() ended with {run.exc!r}; case: {case}")
@@ -1170,7 +1186,7 @@ class C11(RobotLab):
         run = run_program(case, with_faults=True)
         rs = case["robot"]
         if run.exc is not None:
-            if isinstance(run.exc, (Injected, InjectedBase)):
+            if isinstance(run.exc, (Injected, InjectedBase, InjectedAttr)):
                 return {"nontrivial": False, "classes": ["aborted-by-C07-root-cause"]}
             raise Violation(f"C11/robot-died/{type(run.exc).__name__}", f"startCompetition() ended with {run.exc!r}; case: {case}")
         fbs = {}
